@@ -115,8 +115,8 @@ pub fn alphabet(ver: Ver, role: Role) -> Vec<T> {
 pub fn configs(tier: Tier) -> Vec<InCfg> {
     let mut v = Vec::new();
     for (ver, role) in crate::c05::roles() {
-        // application states: idle / outstanding sends / two gated handlers / instead of the handshake
-        for state in 0..4 {
+        // application states: idle / outstanding sends / two gated handlers / instead of the handshake / streaming an outbound publish
+        for state in 0..5 {
             let mut ep = EpCfg::new(ver, role);
             ep.handler_auto = state != 2;
             ep.proto_auto = true;
@@ -126,6 +126,9 @@ pub fn configs(tier: Tier) -> Vec<InCfg> {
                     a.push(SK::Sub);
                 }
                 a
+            } else if state == 4 {
+                // an outbound publish is being streamed: header written, payload owed
+                vec![SK::Stream { qos: 1, size: 6, plan: 1 }]
             } else {
                 vec![]
             };
@@ -159,7 +162,7 @@ pub fn run(tier: Tier) -> i32 {
         ck.explore::<In>("inbound", i, c, &ecfg);
     }
     ck.rule = format!(
-        "per role and version: every sequence of up to {} well-formed packets over an alphabet of 26-30 templates (every packet type incl. those illegal in that direction, ids in use / free / unknown, PUBLISH complete / split / left incomplete / duplicate id / retain / wildcard topic / alias, second CONNECT, every ack type) against 4 application states (idle; outstanding QoS1+QoS2(+SUBSCRIBE) sends; two gated publish handlers; instead of the handshake), handler completions interleaved; oracle: no panic, poll horizon never hit, at most one Stop, Stop reason is a protocol error unless a DISCONNECT (or client-side unknown PUBREL) is in the sequence, and a connection without Stop still answers a probe packet after the drain",
+        "per role and version: every sequence of up to {} well-formed packets over an alphabet of 26-30 templates (every packet type incl. those illegal in that direction, ids in use / free / unknown, PUBLISH complete / split / left incomplete / duplicate id / retain / wildcard topic / alias, second CONNECT, every ack type) against 5 application states (idle; outstanding QoS1+QoS2(+SUBSCRIBE) sends; two gated publish handlers; instead of the handshake; an outbound publish being streamed), handler completions interleaved; oracle: no panic, poll horizon never hit, at most one Stop, Stop reason is a protocol error unless a DISCONNECT (or client-side unknown PUBREL) is in the sequence, and a connection without Stop still answers a probe packet after the drain",
         if tier == Tier::Quick { 3 } else { 4 }
     );
     ck.assumptions = vec!["FIFO task order of ntex-rt; nondeterminism = timing of environment events (DESIGN 2.4)".into()];
